@@ -51,4 +51,8 @@ vela("F_weights_zero_point_3", conv([8], 3))
 n = netgen.Net(1); x = n.fm("in", [1,9,13,8], is_input=True); y = n.fm("y", [1,1,12,8])
 n.op("AVERAGE_POOL_2D", [x], [y], ["Pool2DOptions", {"Padding": 1, "StrideW": 1, "StrideH": 1, "FilterWidth": 2, "FilterHeight": 9, "FusedActivationFunction": 0}])
 vela("G_avgpool_valid_9x2", n.desc([y]))
+# F-H  C16: MEAN over the height axis only, width 4097: 'If Width axis is reduced ...' holds, yet the operator stays on the CPU
+n = netgen.Net(1); x = n.fm("in", [1,2,4097,2], is_input=True); ax = n.const("axes", [1], "INT32", data=[1]); y = n.fm("y", [1,1,4097,2])
+n.op("MEAN", [x, ax], [y], ["ReducerOptions", {"KeepDims": True}])
+vela("H_mean_width_not_reduced", n.desc([y]))
 shutil.rmtree(D, ignore_errors=True)
